@@ -9,6 +9,7 @@ package api
 import (
 	"bytes"
 	"context"
+	"errors"
 	"database/sql"
 	"encoding/json"
 	"fmt"
@@ -21,6 +22,7 @@ import (
 	"path/filepath"
 	"strconv"
 	"strings"
+	"sync"
 	"testing"
 
 	"github.com/basekick-labs/arc/internal/config"
@@ -32,8 +34,38 @@ import (
 	"github.com/rs/zerolog"
 )
 
+// c31FaultBackend is the real LocalBackend with scripted Write failures.
+type c31FaultBackend struct {
+	storage.Backend
+	mu     sync.Mutex
+	mode   string // "" | "all" | "nth:k"
+	writes int
+	failed int
+}
+
+func (b *c31FaultBackend) arm(mode string) {
+	b.mu.Lock()
+	b.mode, b.writes, b.failed = mode, 0, 0
+	b.mu.Unlock()
+}
+
+func (b *c31FaultBackend) Write(ctx context.Context, path string, data []byte) error {
+	b.mu.Lock()
+	b.writes++
+	fail := b.mode == "all" || b.mode == fmt.Sprintf("nth:%d", b.writes)
+	if fail {
+		b.failed++
+	}
+	b.mu.Unlock()
+	if fail {
+		return errors.New("verif: injected storage write failure (disk full)")
+	}
+	return b.Backend.Write(ctx, path, data)
+}
+
 type c31Fixture struct {
 	root string
+	be   *c31FaultBackend
 	buf  *ingest.ArrowBuffer
 	app  *fiber.App
 	db   *sql.DB
@@ -47,10 +79,11 @@ func c31NewFixture(t testing.TB) *c31Fixture {
 	if err != nil {
 		t.Fatalf("tempdir: %v", err)
 	}
-	be, err := storage.NewLocalBackend(root, zerolog.Nop())
+	local, err := storage.NewLocalBackend(root, zerolog.Nop())
 	if err != nil {
 		t.Fatalf("backend: %v", err)
 	}
+	be := &c31FaultBackend{Backend: local}
 	// Thresholds chosen so that only the handler's own FlushAll ever flushes
 	// (no size-triggered async flush, no age timer): storage is deterministic
 	// when the response is returned.
@@ -68,7 +101,7 @@ func c31NewFixture(t testing.TB) *c31Fixture {
 	if err != nil {
 		t.Fatalf("duckdb: %v", err)
 	}
-	fx := &c31Fixture{root: root, buf: buf, app: app, db: db}
+	fx := &c31Fixture{root: root, be: be, buf: buf, app: app, db: db}
 	t.Cleanup(func() {
 		_ = buf.Close()
 		_ = db.Close()
@@ -88,6 +121,9 @@ type c31Case struct {
 	// completely (bad time value, header fault, unsupported column, value not
 	// representable) - a 2xx answer is a failure.
 	MustReject string `json:"must_reject,omitempty"`
+	// Fault: scripted storage Write failure during the import's flush
+	// ("all" | "nth:k"); with a fault only "2xx => every row stored" is asserted.
+	Fault string `json:"storage_fault,omitempty"`
 	// Want: expected stored rows (column -> canonical cell) when accepted.
 	Want []map[string]string `json:"-"`
 	// DecimalCols are compared at 12 significant digits (documented lossy
@@ -147,9 +183,15 @@ func (fx *c31Fixture) run(t c31Failer, c *c31Case) {
 	for _, cl := range c.Classes {
 		verifkit.Class(cl)
 	}
+	fx.be.arm(c.Fault)
 	status, body, err := fx.post("/api/v1/import/"+c.Kind, q, c.File)
+	injected := fx.be.failed
+	fx.be.arm("")
 	if err != nil {
 		t.Fatalf("HARNESS app.Test: %v", err)
+	}
+	if injected > 0 {
+		verifkit.Class("fault:injected")
 	}
 	// "without storing a partial import" must also hold later: rows a rejected
 	// import left behind in the ingest buffer would be written by the next
@@ -169,6 +211,12 @@ func (fx *c31Fixture) run(t c31Failer, c *c31Case) {
 	if status < 200 || status > 299 {
 		fx.rejected++
 		verifkit.Class("outcome:rejected")
+		if injected > 0 {
+			// a storage outage in the middle of a multi-partition flush is C07's
+			// subject; here only "accepted => complete" is asserted for fault cases
+			verifkit.Class("fault:rejected")
+			return
+		}
 		if len(all) != 0 {
 			t.Fatalf("VERIF-FAIL class=C31/partial-import status=%d body=%s but %d parquet files were stored (after the next flush): %v\ncase: %s", status, body, len(all), all, c.describe())
 		}
@@ -208,7 +256,7 @@ func (fx *c31Fixture) run(t c31Failer, c *c31Case) {
 	wantMS := duck.MultisetOf(c.Want, false)
 	gotMS := duck.MultisetOf(got, false)
 	if diff := wantMS.Diff(gotMS, 6); len(diff) > 0 {
-		t.Fatalf("VERIF-FAIL class=C31/stored-rows-differ status=%d stored_cols=%v\n%s\ncase: %s", status, tab.Cols, strings.Join(diff, "\n"), c.describe())
+		t.Fatalf("VERIF-FAIL class=C31/stored-rows-differ status=%d stored_cols=%v injected_storage_failures=%d\n%s\ncase: %s", status, tab.Cols, injected, strings.Join(diff, "\n"), c.describe())
 	}
 	// "each data row is stored once": the response must report the same count.
 	var parsed struct {
@@ -222,7 +270,7 @@ func (fx *c31Fixture) run(t c31Failer, c *c31Case) {
 }
 
 func (c *c31Case) describe() string {
-	return fmt.Sprintf("kind=%s query=%v must_reject=%q classes=%v\nfile=%q\nwant_rows=%d first=%v", c.Kind, c.Query, c.MustReject, c.Classes, c.FileText, len(c.Want), c31First(c.Want))
+	return fmt.Sprintf("kind=%s query=%v storage_fault=%q must_reject=%q classes=%v\nfile=%q\nwant_rows=%d first=%v", c.Kind, c.Query, c.Fault, c.MustReject, c.Classes, c.FileText, len(c.Want), c31First(c.Want))
 }
 
 func c31First(rows []map[string]string) string {
